@@ -175,7 +175,7 @@ def verify_target(repo_root: str, relpath: str, qualname: str, contract: dict, r
         obs = []
         eng = None
         all_unsupported, modelled, paths = [], set(), 0
-        assumed_used, callee_used = set(), set()
+        assumed_used, callee_used, ghost_hits = set(), set(), set()
         for vi, var in enumerate(variants):
             c2 = contract
             if var is not None:
@@ -193,7 +193,11 @@ def verify_target(repo_root: str, relpath: str, qualname: str, contract: dict, r
             paths += eng.paths_done
             assumed_used |= eng.assumed_used
             callee_used |= eng.callee_used
+            ghost_hits |= eng.ghost_hits
         eng.unsupported, eng.stmts_modelled, eng.paths_done = all_unsupported, modelled, paths
+        missing = set(contract.get('ghost_after', {})) - ghost_hits
+        if missing and not all_unsupported:
+            raise SpecError(f'{qualname}: ghost_after anchors not found in the source (spec drift): {sorted(missing)}')
         body_stmts = [n for n in ast.walk(node) if isinstance(n, ast.stmt) and n is not node
                       and not (isinstance(n, ast.Expr) and isinstance(n.value, ast.Constant))]
         rep['stmts_total'] = len({n.lineno for n in body_stmts})
